@@ -1,16 +1,28 @@
 ------------------------------ MODULE MC_Layout ------------------------------
 (* Enumerates layouts: the base layout (one statement per line), every single gap x kind, *)
-(* and (MODE = pairs) two gaps x kinds.                                                   *)
+(* (MODE = pairs) two gaps x kinds, and (MODE = dense) PERIODIC layouts: a gap of kind k1  *)
+(* in front of every token whose index is g2 modulo g1 (stride g1 in 1..4): together the  *)
+(* dense layouts put a line break / a comment in front of every token of the template.    *)
 EXTENDS Layout, Json, IOUtils
 Mode == IF "MODE" \in DOMAIN IOEnv THEN IOEnv.MODE ELSE "single"
 VARIABLES tp, g1, k1, g2, k2
-Init ==
+InitSparse ==
   /\ tp \in 1..Len(Templates)
   /\ g1 \in 0..NTokens(tp)
   /\ k1 \in (IF g1 = 0 THEN {0} ELSE 2..Len(GapKinds))
   /\ IF Mode = "pairs" /\ g1 > 0 THEN g2 \in (g1 + 1)..NTokens(tp) /\ k2 \in 2..Len(GapKinds) ELSE g2 = 0 /\ k2 = 0
   /\ g1 # 1
+\* dense: g1 = stride, g2 = offset, k1 = the gap kind, k2 = a second kind used at every other selected position (0: none)
+InitDense ==
+  /\ tp \in 1..Len(Templates)
+  /\ g1 \in 1..4 /\ g2 \in 0..(g1 - 1)
+  /\ k1 \in {2, 4, 5, 6}
+  /\ k2 \in {0, 3}
+Init == IF Mode = "dense" THEN InitDense ELSE InitSparse
 Next == UNCHANGED <<tp, g1, k1, g2, k2>>
-Choice == IF g1 = 0 THEN <<>> ELSE IF g2 = 0 THEN (g1 :> k1) ELSE (g1 :> k1) @@ (g2 :> k2)
-Emit == PrintT("CASE " \o ToJson([tpl |-> tp, g1 |-> g1, k1 |-> k1, g2 |-> g2, k2 |-> k2, src |-> Text(tp, Choice), stag |-> StmtTag(tp, g1)]))
+DenseChoice == LET sel == {i \in 2..NTokens(tp) : i % g1 = g2} IN
+               [i \in sel |-> IF k2 # 0 /\ (i \div g1) % 2 = 1 THEN k2 ELSE k1]
+Choice == IF Mode = "dense" THEN DenseChoice ELSE IF g1 = 0 THEN <<>> ELSE IF g2 = 0 THEN (g1 :> k1) ELSE (g1 :> k1) @@ (g2 :> k2)
+Emit == PrintT("CASE " \o ToJson([tpl |-> tp, g1 |-> g1, k1 |-> k1, g2 |-> g2, k2 |-> k2, src |-> Text(tp, Choice),
+                                   stag |-> IF Mode = "dense" THEN "dense" ELSE StmtTag(tp, g1)]))
 =============================================================================
